@@ -3,9 +3,13 @@ What is decided by proof is the *protocol* part: the ownership / queued-action m
 (coq/theories/Avoid/LifecycleModel.v: core model = shapes, junctions, connectors, the action queue; second layer = the
 checkpoint VertInfs a connector owns, op XSetCP = ConnRef::setRoutingCheckpoints) never dereferences a freed object, frees
 nothing twice and releases everything at destruction, for all op sequences (Avoid/Lifecycle.v, Avoid/LifecycleCP.v).
-The tie is a correspondence: legal API histories (ops R S J C E M D DJ X K I T Q, see harness/c15_life.cpp) are replayed on
+Third layer (Avoid/LifecyclePinModel.v, LifecyclePin.v): connection pins as heap objects owned by their shape / junction (ops N = new
+ShapeConnectionPin, XN = delete pin): a pin in a set is allocated and its owner is allocated, no pin is in two sets, every allocated pin
+is in a set, ~Obstacle / delete pin / ~Router free each pin once and leave none.
+The tie is a correspondence: legal API histories (ops R S J C E M D DJ X K I N XN T Q, see harness/c15_life.cpp) are replayed on
 the real Router (ASan+UBSan+LSan, assertions as exceptions) and on the extracted model; the observable ownership state (scene
-objects, connectors, queued actions, checkpoint vertices per connector in the router's vertex list) must agree after every
+objects, connectors, queued actions, checkpoint vertices per connector in the router's vertex list, size of every active obstacle's pin
+set, number of pin vertices in the router's vertex list) must agree after every
 call, and the sanitizers must stay silent.
 Everything else is SAMPLED, not proved: checks/c15sweep.py runs the harnesses of the other properties (libvpsc rectangles and
 both solvers, libavoid's solver copy, libcola compound constraints / layouts / clusters / shortest paths, libtopology,
@@ -14,7 +18,7 @@ sample of the inputs that the other checks' generators produce, one process per 
 import os, re, json, collections
 from concurrent.futures import ThreadPoolExecutor
 from vlib import common as C
-from checks.c15gen import gen_history, gen_cp_history
+from checks.c15gen import gen_history, gen_cp_history, gen_pin_history
 from checks import c15sweep as S
 
 PID = 'C15'
@@ -44,6 +48,19 @@ def fingerprint(rc, out, err):
     if 'terminate called' in err:
         return 'terminate:' + (re.search(r"instance of '([^']*)'", err).group(1) if re.search(r"instance of '([^']*)'", err) else '?')
     return 'rc=%d' % rc
+
+
+def refine_life(fp, h, out):
+    """classifier predicates on the failing lifecycle history: narrows a raw fingerprint to the circumstances of a known root cause"""
+    if fp == 'SEGV:connend.cpp:Avoid::ConnEnd::assignPinVisibilityTo' and h and h[0].split()[-1] == '0':
+        # transactions off: the op that crashed (first op without a state line) is `new ShapeConnectionPin` on a shape, and some
+        # connector end was attached to that shape and pin class before
+        done = sum(1 for l in out.split('\n') if ' | ' in l)
+        if done < len(h) and h[done].startswith('N '):
+            t = h[done].split()
+            if any(re.search(r'\bS %s %s\b' % (t[1], t[3]), l) for l in h[:done] if l[0] in 'CE'):
+                return 'pin_ctor_immediate_mode_routes_before_vertex'
+    return fp
 
 
 def known_elsewhere(res, fp, unit=None):
@@ -122,6 +139,16 @@ def directed(rng):
             out.append(base + ['K 10 2 120 60 220 60', 'K 10 0', 'I 10', 'M 3 1 1', 'T', 'Q'])
             out.append(base + ['K 10 1 170 60', 'K 10 1 170 200', 'X 10', 'Q'])
             out.append(['R %d %d' % (orth, tr), 'C 10 P 0 0 P 300 0', 'K 10 1 150 50', 'K 10 0', 'X 10', 'Q'])
+            # first-class pins: two ports of one class on one side (same x, different y) / same y, different x / same position, different
+            # directions; route; destroy - or delete second then first, reroute, delete the shape; pins on a junction
+            two = ['R %d %d' % (orth, tr), 'S 1 200 100 100 100 1', 'S 2 20 300 60 60 1']
+            for pa, pb in (('7 0 0.25 4 1', '7 0 0.75 4 1'), ('7 0.25 1 2 1', '7 0.75 1 2 1'), ('7 0 0.5 4 0', '7 0 0.5 1 0')):
+                mk = two + ['N 1 201 ' + pa, 'N 1 202 ' + pb, 'C 10 S 1 7 P 50 120', 'T']
+                out.append(mk + ['Q'])
+                out.append(mk + ['XN 202', 'T', 'D 1', 'T', 'Q'])
+                out.append(mk + ['C 11 S 2 1 S 1 7', 'T', 'XN 202', 'XN 201', 'T', 'M 1 5 5', 'T', 'Q'])
+            out.append(['R %d %d' % (orth, tr), 'S 1 0 0 30 30 1', 'J 5 200 200', 'N 5 201 7 0 0 4 1', 'N 5 202 7 0 0 8 1', 'T', 'C 10 S 1 1 J 5', 'T',
+                        'XN 201', 'T', 'DJ 5', 'T', 'Q'])
     return out
 
 
@@ -130,7 +157,8 @@ def run(tier):
     info = C.prove(res, PID)
     n = 160 if tier == 'quick' else 1500
     rng = C.SplitMix64(res.seed)
-    hs = corpus() + directed(rng) + [gen_cp_history(rng.fork()) for _ in range(n // 3)] + [gen_history(rng.fork()) for _ in range(n)]
+    hs = corpus() + directed(rng) + [gen_cp_history(rng.fork()) for _ in range(n // 3)] + [gen_pin_history(rng.fork()) for _ in range(n // 2)] + \
+        [gen_history(rng.fork()) for _ in range(n)]
     exe = C.build_harness('c15_life', ['libavoid'], 'asan-exc')
     drv = C.ocaml_build('c15', 'C15.v', 'c15_driver.ml', 'c15_model.ml')
 
@@ -162,6 +190,8 @@ def run(tier):
         calls += len(h)
         distinct.add(tuple(l.split()[0] for l in h))
         fp = fingerprint(rc, out, err)
+        if fp:
+            fp = refine_life(fp, h, out)
         ilines = [l for l in out.split('\n') if l and not l.startswith(('ASSERT', 'ERROR', ' ', 'EXCEPTION'))]
         if fp:
             san_fail += 1
